@@ -178,7 +178,7 @@ def run_coq_cases(workdir: Path, header: str, cases: list[str], per_file=400, ti
     with ThreadPoolExecutor(max_workers=jobs) as ex:
         for f, (rc, out, err) in ex.map(one, files):
             text = out + "\n" + err
-            for m in re.finditer(r"CASE\s+(\d+)\s+([^\n]*)", text):
+            for m in re.finditer(r"CASE\s+(\d+)(?:%\w+)?\s+([^\n]*)", text):
                 results[int(m.group(1))] = m.group(2).strip()
             if rc != 0:
                 errors.append((f.name, err[-1500:]))
@@ -351,8 +351,14 @@ def prove(res: Result, extra_tb=()):
     """Build the project, collect obligations for res.pid. Records breakage in res; returns True if all proved."""
     ok = True
     try:
+        import translate
+        translate.regenerate()
         bt = build_coq()
         info = props_obligations(res.pid, res.workdir)
+    except RuntimeError as e:
+        res.broken("translator", {"error": str(e)[-3000:]})
+        res.coverage.update(obligations=1, discharged=0, checker_cmd=CHECKER_CMD, trusted_base=KERNEL_TB + list(extra_tb))
+        return False
     except BuildError as e:
         res.broken(f"coq:{e.file}:{e.lemma}", {"error": str(e), "log": e.log[-3000:]})
         src = COQ / "Props" / f"{res.pid}.v"
